@@ -18,9 +18,11 @@ evaluated on the run of the `go` model in the compared mode.  Excluded are exact
     no line end follows, has read the comment twice, so a NUL / bad UTF-8 / BOM inside it is
     reported twice.
 
-`sharedLexemesOnly U src`: evaluated on the token stream of the `xgo` model with comments on.
-Excluded: ILLEGAL tokens, keywords (TPL has none), `c"…"`/`py"…"`, `*` directly followed by `*`
-(TPL: `**`), CR inside a `/*…*/` or `#` comment (the scanners strip differently), `#/`, `#*`.
+`sharedLexemesOnly U comments noSemis src`: evaluated on the run of the `xgo` model in the compared
+mode.  Excluded: ILLEGAL tokens, keywords (TPL has none), `c"…"`/`py"…"`, `*` directly followed by
+`*` (TPL: `**`), comments that contain a CR (the scanners strip differently), `#/`, `#*`, and
+comments whose text continues with "line " after two bytes (line directives: only XGo reports
+their errors).
 -/
 import GopModel.Model.Scan
 namespace GopModel.Scan
@@ -75,20 +77,42 @@ def goRunOK (cfg : Cfg) (src : Array UInt8) : Nat → St → Bool
 def goLexemesOnly (U : UCls) (comments noSemis : Bool) (src : Array UInt8) : Bool :=
   goRunOK { d := .go, comments := comments, noSemis := noSemis, U := U } src (scanFuel src) (initSt src)
 
-/-- C32: local condition on one token of the xgo stream -/
+/-- C32: a comment with source span `[p, e)` that both scanners treat alike: no carriage return
+in it (the scanners strip differently), not `#/…`, `#*…` (XGo scans these with its `//` / `/*`
+branch), and its text does not continue with "line " after two bytes (XGo interprets line
+directives — also `# line …` — and reports their errors; TPL does not) -/
+def commentSpanOK (src : Array UInt8) (p e : Nat) : Bool :=
+  let span := (src.toList.drop p).take (e - p)
+  !span.contains 0x0D && !linePrefix.isPrefixOf (span.drop 2) &&
+    !(byteAt src p == 0x23 && (byteAt src (p + 1) == 0x2F || byteAt src (p + 1) == 0x2A))
+
+/-- C32: local condition on one token of the xgo run -/
 def sharedTokOK (src : Array UInt8) (t : Token) : Bool :=
   t.kind != Tokens.XGo.ILLEGAL &&
   !Tokens.XGo.isKeyword t.kind &&
   t.kind != Tokens.XGo.CSTRING && t.kind != Tokens.XGo.PYSTRING &&
   !(t.kind == Tokens.XGo.MUL && byteAt src t.stop == 0x2A) &&
-  !(t.kind == Tokens.XGo.COMMENT &&
-      (((byteAt src t.pos == 0x23 || byteAt src (t.pos + 1) == 0x2A) &&
-          ((src.toList.drop t.pos).take (t.stop - t.pos)).contains 0x0D) ||
-       (byteAt src t.pos == 0x23 && (byteAt src (t.pos + 1) == 0x2F || byteAt src (t.pos + 1) == 0x2A))))
+  (t.kind != Tokens.XGo.COMMENT || commentSpanOK src t.pos t.stop)
 
-def sharedLexemesOnly (U : UCls) (src : Array UInt8) : Bool :=
-  let out := scan { d := .xgo, comments := true, noSemis := false, U := U } src
-  out.status == .done && out.toks.all (sharedTokOK src)
+/-- one pass through `Scan` of the xgo scanner from state `st` with result `r`: the token is
+fine, or the skipped comment (comments off) — which begins behind the white space — is -/
+def shStepOK (src : Array UInt8) (st : St) (r : St × Option Token) : Bool :=
+  match r.2 with
+  | some t => sharedTokOK src t
+  | none => commentSpanOK src (skipWs src (src.size + 1) st).off r.1.off
+
+def shRunOK (cfg : Cfg) (src : Array UInt8) : Nat → St → Bool
+  | 0, _ => false
+  | f + 1, st =>
+    let r := scanStep cfg src (src.size + 1) st
+    r.1.fail == .ok && shStepOK src st r &&
+      match r.2 with
+      | none => shRunOK cfg src f r.1
+      | some t => t.kind == Tokens.XGo.EOF || shRunOK cfg src f r.1
+
+/-- C32 domain, evaluated on the xgo model's run in the compared mode -/
+def sharedLexemesOnly (U : UCls) (comments noSemis : Bool) (src : Array UInt8) : Bool :=
+  shRunOK { d := .xgo, comments := comments, noSemis := noSemis, U := U } src (scanFuel src) (initSt src)
 
 /-- `tokens[kind]` as a string of the dialect (the result of `String()` for a table entry) -/
 def kindName (d : Dialect) (k : Nat) : Option (List UInt8) :=
